@@ -109,8 +109,28 @@ def validate(chk, obs, chunk=40000):
     return verd
 
 
+def run_replay(chk, binary, path):
+    """Re-execute one stored failing case (replays/C09/*.json) against the current /repo."""
+    import json
+    rep = json.load(open(path))
+    line = "t0 " + rep["case"]["line"].split(" ", 1)[1]
+    res, faults, leaky = cl.run_parallel(binary, [line], per_case_timeout=120.0)
+    chk.count(line)
+    if faults or leaky or "t0" not in res:
+        chk.violation(rep["signature"], "replay: fault again on %s" % line, rep["case"])
+        return
+    t = cl.kv(res["t0"])
+    o, _ = observation("t0", None, t)
+    verd = validate(chk, [o])
+    if verd["t0"]["v"] != "accepted":
+        for clause in verd["t0"]["clauses"]:
+            chk.violation(rep["signature"], "replay: %s -> clause '%s' violated; observed %s" % (line, clause, t), rep["case"])
+
+
 def run(chk, tier, replay):
     binary = common.build_harness("h_codec")
+    if replay:
+        return run_replay(chk, binary, replay)
     chk.assumptions += [
         "spec/sys/Codec.tla is the contract (one action per call, allowed outcomes); spec/sys/CodecDesc.tla the input shape space",
         "written extent of a call = last destination byte changed in either of two runs over complementary fill patterns",
